@@ -28,6 +28,7 @@ for n in names:
         rc, out = sh(f"./check {pid} --tier quick", timeout=2400)
     finally:
         sh("git -C /repo checkout -- . && git -C /repo clean -fdq src tests")
+        sh("python3 tools/gen_consts.py")       # the generated Lean files describe the unchanged tree again
         if saved is not None:
             open(ev, "w").write(saved)
     viol = [l for l in out.splitlines() if l.startswith("VIOLATION")]
